@@ -25,9 +25,12 @@ func (o *OffsetExpr) Eval(ctx context.Context, local Scope) (_ Value, err error)
 	if err != nil {
 		return nil, WrapContextErr(err, o, local)
 	}
-	_, isNumber := offset.(Number)
+	n, isNumber := offset.(Number)
 	if !isNumber {
 		return nil, WrapContextErr(errors.Errorf("offset must be a number, not %s", ValueTypeAsString(offset)), o, local)
+	}
+	if _, isInt := n.Int(); !isInt {
+		return nil, WrapContextErr(errors.Errorf("offset must be an integer, not %v", n), o, local)
 	}
 
 	array, err := o.array.Eval(ctx, local)
